@@ -7,4 +7,15 @@ def expectedC07 : List (String × String) := [("lits:stats.InvCDF", "0 0 0 0 0.0
 /-- the constants and literals the C07 model mirrors are still what the source says -/
 theorem facts_C07 : holdsAll expectedC07 = true := by decide
 
+
+/-- State that outlives a call, as extracted from the source on this run: the package-level
+variables of the packages this property's code lives in, the functions (other than `init`) that
+assign to them or call methods on them, and the fields of the property's struct types. The model is
+a pure function of the arguments and of these fields; a new variable, writer or field is state the
+model does not know of. -/
+def stateC07 : List (String × String) := [("globals:stats", "ErrMismatchedSamples ErrSampleSize ErrSamplesEqual ErrZeroVariance MannWhitneyExactLimit MannWhitneyTiesExactLimit StdNormal _KDEBoundaryMethod_index _KDEKernel_index _LocationHypothesis_index inf nan quantileCIApproxThreshold"), ("globals:mathx", "nan smallFact"), ("globalwrites:stats", "MannWhitneyUTest:StdNormal.CDF"), ("globalwrites:mathx", "")]
+
+/-- the source has exactly the package-level variables, writers and struct fields the model accounts for -/
+theorem state_C07 : holdsAll stateC07 = true := by decide +kernel
+
 end MV.Facts
